@@ -589,6 +589,65 @@ def render_scenario(sc, fn="observe"):
 
 # ----------------------------------------------------------------------------- running one scenario
 
+def verify(ref, w, impls, legit, missed, d, o, actual, new_recs):
+    """The property, checked top-down on the value an evaluation returned.  A dataset whose effect
+    did not run during this call was served from its cache: its value must be one an earlier
+    evaluation computed for that cache under the SAME dispatch outcome (and, when the same
+    implementations are still bound, from the same option values).  A dataset that was computed
+    now must return callback(outcome of the implementation the reference picks NOW), recursively.
+    Returns None or a dict describing the failure (with its zone)."""
+    x = ref.ds[d]
+    o2 = {**o, **x["preset"]}
+    out = ref_dispatch(x["disp"], o2)
+    impl = x["tbl"].get(out[1]) if out[0] == "v" else None
+    if impl is None:
+        impl = x["default"]
+    if w.cache_label[d] not in missed:
+        recs = [r for r in legit.get(x["cache"], []) if r["value"] == actual]
+        same = [r for r in recs if r["outcome"] == out]
+        if not recs:
+            return dict(zone=None, dataset=d, desc="a value was served from the cache that no earlier evaluation computed for this dataset")
+        if not same:
+            if not dispatch_safe(x["disp"]) and any(r["disp"] == x["disp"] for r in recs):
+                zone = "D19"
+            elif any(r["disp"] != x["disp"] for r in recs):
+                zone = "D22"
+            else:
+                zone = None
+            return dict(zone=zone, dataset=d, dispatch_now=list(out),
+                        dispatch_when_stored=[list(r["outcome"]) for r in recs],
+                        desc="a value stored for one dispatch value was returned for another")
+        chain = ref.eval(d, o)[3]
+        if any(r["chain"] == chain for r in same) and not reads_consistent(actual, o2, impls):
+            # (only when the same implementations are bound now as when it was stored: after a
+            #  re-registration the evaluation counts as "already stored" under the new keys)
+            return dict(zone=None, dataset=d, desc="served value was computed from other option values than the current ones")
+        return None
+    # computed now
+    if impl is None:
+        return dict(zone=None, dataset=d, desc="an abstract dataset with no applicable implementation returned a value")
+    inner = actual
+    if x["cb"] is not None:
+        if not (isinstance(actual, tuple) and len(actual) == 3 and actual[0] == "cb" and actual[1] == x["cb"]):
+            return dict(zone=None, dataset=d, expected_callback=x["cb"],
+                        desc="computed value is not callback(implementation registered for the current dispatch value / default): callback missing")
+        inner = actual[2]
+    elif isinstance(actual, tuple) and actual and actual[0] == "cb" and impl[0] == "f":
+        return dict(zone=None, dataset=d, desc="a callback was applied that the dataset does not have")
+    if impl[0] == "f":
+        exp, _ = ref.run_impl(impl, o2, None)
+        if exp[0] != "v" or exp[1] != inner:
+            return dict(zone=None, dataset=d, expected=World.show_val(exp[1]) if exp[0] == "v" else "failure",
+                        desc="computed value is not callback(implementation registered for the current dispatch value / default)")
+    else:
+        bad = verify(ref, w, impls, legit, missed, impl[1], o2, inner, new_recs)
+        if bad is not None:
+            return bad
+    new_recs.append(dict(cache=x["cache"], value=actual, outcome=out, disp=copy.deepcopy(x["disp"]),
+                         chain=ref.eval(d, o)[3]))
+    return None
+
+
 def run_impl(L, sc):
     """implementation observations (one string per op) + the oracle's candidate violations"""
     impls = {int(g): d for g, d in sc["impls"].items()}
@@ -603,49 +662,30 @@ def run_impl(L, sc):
         k = op[0]
         before = w.raw_tables() if k == "implement" else None
         if k == "eval":
+            start = len(w.events)
             got = w.do_eval(op[1], op[2])
             obs = w.show_eval(got)
             stats["evals"] += 1
-            nested = []
-            exp, outcome, o2, chain = ref.eval(op[1], {kk: v for kk, v in op[2]}, nested)
-            x = ref.ds[op[1]]
+            missed = {e[1] for e in w.events[start:] if e[0] == "miss"}
+            outcome = ref.eval(op[1], {kk: v for kk, v in op[2]})[1]
             if got[0] == "e":
                 stats["fails"] += 1
+                exp = ref.eval(op[1], {kk: v for kk, v in op[2]})[0]
                 if got[1].startswith("raw"):
                     cands.append(dict(op=idx, zone=None, desc="evaluation raised a non-EvaluationError", got=obs))
                 elif exp[0] == "v":
                     cands.append(dict(op=idx, zone=None, got=obs, expected=World.show_val(exp[1]),
                                       desc="evaluation fails although the reference picks an implementation that succeeds"))
-            elif not got[2]:   # computed now: must be callback(implementation the reference picks NOW)
-                if exp[0] != "v" or exp[1] != got[1]:
-                    cands.append(dict(op=idx, zone=None, got=obs,
-                                      expected=World.show_val(exp[1]) if exp[0] == "v" else "failure",
-                                      desc="computed value is not callback(implementation registered for the current dispatch value / default)"))
-                else:
-                    for rec in nested:
+            else:
+                if got[2]:
+                    stats["hits"] += 1
+                new_recs = []
+                bad = verify(ref, w, impls, legit, missed, op[1], {kk: v for kk, v in op[2]}, got[1], new_recs)
+                if bad is None:
+                    for rec in new_recs:
                         legit.setdefault(rec["cache"], []).append(rec)
-            else:              # served from the store
-                stats["hits"] += 1
-                recs = [r for r in legit.get(x["cache"], []) if r["value"] == got[1]]
-                same = [r for r in recs if r["outcome"] == outcome]
-                if not recs:
-                    cands.append(dict(op=idx, zone=None, got=obs,
-                                      desc="a value was served from the cache that no earlier evaluation computed for this dataset"))
-                elif not same:
-                    zone = None
-                    if all(r["disp"] != x["disp"] for r in recs):
-                        zone = "D22"
-                    elif not dispatch_safe(x["disp"]):
-                        zone = "D19"
-                    cands.append(dict(op=idx, zone=zone, got=obs, dispatch_now=list(outcome),
-                                      dispatch_when_stored=[list(r["outcome"]) for r in recs],
-                                      expected=World.show_val(exp[1]) if exp[0] == "v" else "failure",
-                                      desc="a value stored for one dispatch value was returned for another"))
-                elif any(r["chain"] == chain for r in same) and not reads_consistent(got[1], o2, impls):
-                    # (only when the same implementations are bound now as when it was stored: after a
-                    #  re-registration the evaluation counts as "already stored" under the new keys)
-                    cands.append(dict(op=idx, zone=None, got=obs,
-                                      desc="served value was computed from other option values than the current ones"))
+                else:
+                    cands.append(dict(op=idx, got=obs, **bad))
         else:
             expect = ref.expect(op)
             obs = w.apply(op)
